@@ -337,3 +337,54 @@ example : Model.Mvp60.btbGet (Model.Mvp60.btbAdd [(0#32, 4#32), (8#32, 12#32), (
   decide
 
 end Props.C03
+
+/-! ## MVP-6.0 (package R60c): jumps — what was fetched behind a jump before it resolved never reaches the register file
+
+`Proofs.Mvp60Sl.RelG app s a` is the relation between two ticks for the class with jumps (`Model.Mvp60.JClass`, which contains
+`RegOnlyWf`): the runners in flight are the instructions `n0, n0+1, …` of the sequential order (`FrontJ.chain`), the register
+file plus the queued results is the architectural register file (`Back`).  While the decode unit is closed
+(`pendingBranchResolution`) the jump is the YOUNGEST runner: whatever the fetch unit has fetched behind it lies on the decode
+bus, which the decode unit does not read; the execute unit that executes the jump marks the decode bus to be cleaned, and the
+fetch unit cleans it before anything else in its next cycle.  So no instruction fetched behind an unresolved jump is ever
+decoded, let alone executed or written back. -/
+namespace Props.C03
+
+/-- **behind an unresolved jump nothing is decoded (MVP-6.0).**  Between two ticks: the runners in flight are consecutive
+instructions of the sequential order starting at the architectural pc; and while the decode unit is closed, the youngest of
+them is the jump it waits for and no older one is a jump. -/
+theorem mvp60_jump_is_youngest_in_flight (app : App) (s : Model.Mvp60.State) (a : Arch) (h : Proofs.Mvp60Sl.RelG app s a) :
+    ∃ n0, a.pc = Proofs.Mvp60Sl.pcOf n0 ∧ Proofs.Mvp60Sl.Chain app n0 (Proofs.Mvp60Sl.runners s) ∧
+      (s.du.pendingBranchResolution = true →
+        ∃ pre j, Proofs.Mvp60Sl.runners s = pre ++ [j] ∧ j.instr.instructionType.IsUnconditionalBranch = true ∧
+          ∀ r ∈ pre, r.instr.instructionType.IsUnconditionalBranch = false) := by
+  obtain ⟨n0, h1, h2⟩ := h.front
+  exact ⟨n0, h1, h2.chain, h2.clo⟩
+
+/-- **what was fetched behind a jump is thrown away (MVP-6.0).**  With the flag the executing unit sets
+(`Props.C03.mvp60_jump_restarts_fetch_at_target`: `fu.reset target true`), the fetch unit's next cycle is its cycle on the
+CLEANED decode bus: the pcs fetched behind the jump are gone before the (re-opened) decode unit reads the bus. -/
+theorem mvp60_fetched_behind_jump_is_discarded (app : App) (c : Int) (fu : Model.Mvp60.FetchUnit) (mmu : Model.Mmu.Mmu)
+    (bus : Model.BufferedBus Word) (h : fu.toCleanPending = true) :
+    Model.Mvp60.fetchCore app c fu mmu bus =
+      Model.Mvp60.fetchCore app c { fu with toCleanPending := false } mmu bus.clean :=
+  Proofs.Mvp60Sl.fetchCore_clean app c fu mmu bus h
+
+/-- **one tick of MVP-6.0 is a number of steps of the unpipelined machine — with jumps** (class `Model.Mvp60.JClass`, every
+number of units): after a tick from related states the relation holds again for the state the unpipelined machine has reached
+(between normal ticks, in the drain after a `ret`, in the drain before a flush), or the run has ended with the unpipelined
+machine's `ret` / defined error and its registers and memory, or "past the end" with the registers and memory of the state it
+has reached.  `hT`: the targets of the control transfers of the unpipelined run are instructions of the program (for `jalr`:
+`Proofs.Mvp60Sl.tgtOk_of_spec`). -/
+theorem mvp60_tick_is_sequential_steps_with_jumps (app : App) (hp : Proofs.Mvp60Sl.ProgJ app) (a0 : Arch)
+    (hT : ∀ k a, Proofs.Mvp4.seqIter app k a0 = some a → Proofs.Mvp60Sl.TgtOk app a)
+    (s s' : Model.Mvp60.State) (a : Arch) (k : Nat) (ev : Model.Mvp60.Event) (hk : Proofs.Mvp4.seqIter app k a0 = some a)
+    (hr : Proofs.Mvp60Sl.RelG app s a ∨ Proofs.Mvp60Sl.RelB app s a ∨ Proofs.Mvp60Sl.RelF app s a)
+    (h : Model.Mvp60.cycle app s = (s', ev)) : Proofs.Mvp60Sl.TickPostG app a0 s' ev :=
+  Proofs.Mvp60Sl.cycle_simG app hp a0 hT s s' a k ev hk hr h
+
+/-- Non-vacuity: the initial state (any program, any number of units, `sequenceID = 0`) is in the relation -/
+example (app : App) (eu : Nat) : ∃ s0, Model.Mvp60.init { Memory := List.replicate 64 0#8 } eu eu = .ok s0 ∧
+    Proofs.Mvp60Sl.RelG app s0 ⟨{ Memory := List.replicate 64 0#8 }, 0#32⟩ :=
+  Proofs.Mvp60Sl.init_relG app _ ⟨rfl, rfl, fun r => rfl⟩ eu eu rfl (Or.inl rfl)
+
+end Props.C03
